@@ -76,7 +76,7 @@ Act ==
               [] Line.e = "Request"  -> TRequest
               [] Line.e = "SignAll"  -> TSignAll
               [] Line.e = "EndBlock" -> TEndBlock
-              [] Line.e \in {"SetCanSign", "Env"} -> UNCHANGED vars
+              [] Line.e \in {"SetCanSign", "Env", "SetFee"} -> UNCHANGED vars
 
 Bind(name, cur, nxt, obs) == IF name \in Checked THEN cur = obs /\ nxt = cur ELSE nxt = obs
 
